@@ -3,6 +3,7 @@ Helper lemmas for Props/C14.lean: facts about the executable model in Model/Peri
 No `sorry`, no extra axioms; table facts are discharged by `decide +kernel`.
 -/
 import ChemModel.Model.Periodic
+import ChemModel.Proofs.FormulaAssemble
 import Batteries.Data.Char.AsciiCasing
 import Mathlib.Algebra.Order.Field.Rat
 import Mathlib.Algebra.Order.Field.Basic
@@ -480,5 +481,144 @@ theorem massFractions_spec (mv : List (Rat × Rat)) (fr : List Rat)
       have hnn := sum_nonneg_of_pos mv hpos
       have htot : 0 < (mv.map fun p => p.1 * p.2).sum := lt_of_le_of_ne hnn (Ne.symm (hne hm))
       exact div_pos (hpos p hp) htot
+
+/-! ### positivity of weights and of formula masses -/
+
+theorem stdWeight_ge_one (z : Nat) (h1 : 1 ≤ z) (h2 : z ≤ 118) : 1 ≤ stdWeight z := by
+  have hall : (List.range 118).all (fun i => decide (1 ≤ stdWeight (i + 1))) = true := by decide +kernel
+  have h := List.all_eq_true.mp hall (z - 1) (List.mem_range.mpr (by omega))
+  have hz : z - 1 + 1 = z := by omega
+  rw [hz] at h
+  exact of_decide_eq_true h
+
+theorem stdWeight_pos (z : Nat) (h1 : 1 ≤ z) (h2 : z ≤ 118) : 0 < stdWeight z :=
+  lt_of_lt_of_le one_pos (stdWeight_ge_one z h1 h2)
+
+theorem electronMass_pos : 0 < electronMass := by decide +kernel
+theorem thousand_electronMass_lt_one : 1000 * electronMass < 1 := by decide +kernel
+
+open ChemModel.Formula (Formula Terms Term Part) in
+mutual
+theorem Term.occ_ne_nil : ∀ (t : Term) (m : Rat), t.wf = true → t.occ m ≠ []
+  | .elem z n st marks, m, _ => by simp [Formula.Term.occ]
+  | .group b body n st marks, m, h => by
+    simp only [Formula.Term.wf, Bool.and_eq_true, Bool.not_eq_true'] at h
+    simp only [Formula.Term.occ]
+    exact Terms.occ_ne_nil body _ h.1.1.1 h.1.1.2
+  | .cage body, m, h => by
+    simp only [Formula.Term.wf, Bool.and_eq_true, Bool.not_eq_true'] at h
+    simp only [Formula.Term.occ]
+    exact Terms.occ_ne_nil body _ h.1 h.2
+theorem Terms.occ_ne_nil : ∀ (ts : Terms) (m : Rat), ts.wf = true → ts.isNil = false → ts.occ m ≠ []
+  | .nil, _, _, hn => by simp [Formula.Terms.isNil] at hn
+  | .cons t ts, m, h, _ => by
+    simp only [Formula.Terms.wf, Bool.and_eq_true] at h
+    simp only [Formula.Terms.occ]
+    intro he
+    exact Term.occ_ne_nil t m h.1.1 (List.append_eq_nil_iff.mp he).1
+end
+
+/-- a well-formed formula has at least one element occurrence -/
+theorem occurrences_ne_nil (f : Formula.Formula) (h : f.WF) : f.occurrences ≠ [] := by
+  have hd := Formula.Formula.wfd f h
+  obtain ⟨p, ps, hp, _⟩ := hd.first
+  have hpw := Formula.Part.wf_iff p (hd.parts p (by rw [hp]; exact List.mem_cons_self))
+  unfold Formula.Formula.occurrences
+  rw [hp, List.flatMap_cons]
+  intro he
+  exact Terms.occ_ne_nil p.terms p.mult hpw.2.1 hpw.2.2 (List.append_eq_nil_iff.mp he).1
+
+theorem sum_counts_pos (c : List (Nat × Rat)) (hne : c ≠ []) (h : ∀ p ∈ c, 0 < p.2) :
+    0 < (c.map fun p => p.2).sum := by
+  induction c with
+  | nil => exact absurd rfl hne
+  | cons p r ih =>
+    rw [List.map_cons, List.sum_cons]
+    have hp := h p List.mem_cons_self
+    by_cases hr : r = []
+    · subst hr; simpa using hp
+    · have := ih hr fun q hq => h q (List.mem_cons_of_mem _ hq)
+      linarith
+
+theorem sum_counts_le_weighted (c : List (Nat × Rat)) (h : ∀ p ∈ c, 0 < p.2 ∧ 1 ≤ stdWeight p.1) :
+    (c.map fun p => p.2).sum ≤ (c.map fun p => p.2 * stdWeight p.1).sum := by
+  induction c with
+  | nil => simp
+  | cons p r ih =>
+    rw [List.map_cons, List.sum_cons, List.map_cons, List.sum_cons]
+    have hp := h p List.mem_cons_self
+    have hr := ih fun q hq => h q (List.mem_cons_of_mem _ hq)
+    have : p.2 ≤ p.2 * stdWeight p.1 := le_mul_of_one_le_right (le_of_lt hp.1) hp.2
+    linarith
+
+/-- the occurrence mass of a well-formed formula is positive when every occurrence has a positive effective count
+    and the charge does not exceed 1000 × (number of atoms): every weight is ≥ 1 u and 1000·mₑ < 1 u -/
+theorem occurrenceMass_pos (f : Formula.Formula) (h : f.WF) (hcnt : ∀ p ∈ f.occurrences, 0 < p.2)
+    (hq : f.denote 0 ≤ 1000 * (f.occurrences.map fun p => p.2).sum) : 0 < occurrenceMass f := by
+  have hkeys : ∀ p ∈ f.occurrences, 0 < p.2 ∧ 1 ≤ stdWeight p.1 := by
+    intro p hp
+    have hk := Formula.occ_keys_pos f.parts (Formula.Formula.wfd f h).parts p.1
+      (List.mem_map_of_mem (f := Prod.fst) hp)
+    exact ⟨hcnt p hp, stdWeight_ge_one p.1 hk.1 hk.2⟩
+  have hS := sum_counts_pos f.occurrences (occurrences_ne_nil f h) hcnt
+  have hW := sum_counts_le_weighted f.occurrences hkeys
+  have hme := electronMass_pos
+  have h1000 := thousand_electronMass_lt_one
+  unfold occurrenceMass
+  have h1 : f.denote 0 * electronMass ≤ 1000 * (f.occurrences.map fun p => p.2).sum * electronMass :=
+    mul_le_mul_of_nonneg_right hq (le_of_lt hme)
+  have h2 : 1000 * (f.occurrences.map fun p => p.2).sum * electronMass
+      = (f.occurrences.map fun p => p.2).sum * (1000 * electronMass) := by ring
+  have h3 : (f.occurrences.map fun p => p.2).sum * (1000 * electronMass) < (f.occurrences.map fun p => p.2).sum :=
+    mul_lt_of_lt_one_right hS h1000
+  linarith
+
+/-! ### mixtures of formulas -/
+
+theorem mapM_except_ok {α β ε : Type} (f : α → Except ε β) (g : α → β) (l : List α)
+    (h : ∀ x ∈ l, f x = .ok (g x)) : l.mapM f = .ok (l.map g) := by
+  induction l with
+  | nil => rfl
+  | cons x r ih =>
+    rw [List.mapM_cons, h x List.mem_cons_self, ih fun y hy => h y (List.mem_cons_of_mem _ hy)]
+    rfl
+
+/-- `massFractions` on pairs whose products are all positive: defined, positive, proportional, sum to one -/
+theorem massFractions_of_pos (mv : List (Rat × Rat)) (hpos : ∀ p ∈ mv, 0 < p.1 * p.2) :
+    ∃ fr, massFractions mv = some fr ∧ fr.length = mv.length ∧ (∀ x ∈ fr, 0 < x) ∧ (mv ≠ [] → fr.sum = 1) ∧
+      ∀ i (hi : i < mv.length) (hj : i < fr.length),
+        fr[i] = mv[i].1 * mv[i].2 / (mv.map fun p => p.1 * p.2).sum := by
+  have hdef : (massFractions mv).isSome := by
+    rw [massFractions_isSome_iff]
+    by_cases hm : mv = []
+    · exact Or.inl hm
+    · right
+      obtain ⟨p, r, rfl⟩ := List.exists_cons_of_ne_nil hm
+      have h0 := sum_nonneg_of_pos r fun q hq => hpos q (List.mem_cons_of_mem _ hq)
+      have hp := hpos p List.mem_cons_self
+      rw [List.map_cons, List.sum_cons]
+      linarith
+  obtain ⟨fr, hfr⟩ := Option.isSome_iff_exists.mp hdef
+  obtain ⟨hlen, hsum, hprop, hp⟩ := massFractions_spec mv fr hfr
+  refine ⟨fr, hfr, hlen, hp hpos, hsum, ?_⟩
+  intro i hi hj
+  have hne : (mv.map fun p => p.1 * p.2).sum ≠ 0 := by
+    have hm : mv ≠ [] := fun e => by rw [e] at hi; exact Nat.not_lt_zero _ hi
+    obtain ⟨p, r, rfl⟩ := List.exists_cons_of_ne_nil hm
+    have h0 := sum_nonneg_of_pos r fun q hq => hpos q (List.mem_cons_of_mem _ hq)
+    have hp' := hpos p List.mem_cons_self
+    rw [List.map_cons, List.sum_cons]
+    linarith
+  rw [eq_div_iff hne]
+  exact hprop i hi hj
+
+/-! ### group / period tables -/
+
+theorem groupMembers_reference :
+    groupMembers 1 = [1, 3, 11, 19, 37, 55, 87] ∧ groupMembers 2 = [4, 12, 20, 38, 56, 88] ∧
+    groupMembers 13 = [5, 13, 31, 49, 81, 113] ∧ groupMembers 14 = [6, 14, 32, 50, 82, 114] ∧
+    groupMembers 15 = [7, 15, 33, 51, 83, 115] ∧ groupMembers 16 = [8, 16, 34, 52, 84, 116] ∧
+    groupMembers 17 = [9, 17, 35, 53, 85, 117] ∧ groupMembers 18 = [2, 10, 18, 36, 54, 86, 118] := by
+  decide +kernel
 
 end ChemModel.Periodic
